@@ -91,6 +91,11 @@ CHECKS = {
          "What is judged is what is on disk after the flush interval: every accepted stamp exactly once as a parseable line in the log file or a rotated predecessor, no file above the maximum size unless it is a single line, no Send stuck.",
          "Fault space = external rename/remove before any write of a sequence, destination missing/unusable before the writer starts. ENOSPC/EIO mid-write and power loss are not injected.",
          "DESIGN.md §5 C07"),
+ "C16": ("exploration",
+         "runtime monitoring: a scripted agent over the real Disco (Noise_NK) transport drives the real agent listener inside server.Run; a recording/echoing stub service on the announced ports and the frames returned to the agent are compared per virtual connection with the stamped payloads sent (FIFO, exactly-once, addresses, termination set); yield point parks the service's reader between its buffer check and its wait; codec round trips against an independent encoder/decoder over all 65,536 ports and payload lengths to 65,000; race detector as diagnostic",
+         "All interleavings of two 4-message connections (70), (thorough) three 3-message connections (1680), seeded sessions with 1..4 connections and up to 20 data messages of 0..60000 bytes, unknown ids, pings, UDP relay, agent disconnect mid-stream.",
+         "Unique (connection, sequence) stamps make the histories unambiguous, so exactly-once and order are decided by comparison. The scripted agent frames messages like the real agent.",
+         "DESIGN.md §5 C16"),
 }
 
 NOT_YET = {
